@@ -791,13 +791,38 @@ fn cmd_directed(args: &[String]) {
     // after k of its shared operations (it holds the 16-bin table); thread 1 alone inserts enough to
     // complete 16 -> 32 -> 64; the reader then has to follow two levels of forwarding markers
     if want("stalereader") {
+        let mut variants: Vec<(Vec<COp>, u32, u64)> = Vec::new();
+        // (prefill override) present keys whose hash has bit 16 / 32 set: in the 64-bin table they do
+        // not sit where the 16- or 32-bin mask would put them
+        let hi_prefill: Vec<u32> = vec![0, 1, 2, 4, 5, 6, 35, 45, 50, 51, 60];
         for (rk, k) in [(3u32, 1u64), (3, 2), (3, 3), (15, 1), (15, 2), (40, 1), (40, 2), (0, 2), (7, 4)] {
+            variants.push((vec![COp::Get(rk), COp::ContainsKey(rk)], rk, k));
+        }
+        // the same for writers holding the stale table: they meet forwarding markers on two levels
+        for k in 1..=5u64 {
+            for rk in [3u32, 15, 40] {
+                variants.push((vec![COp::Insert(rk, 900 + k as i64), COp::Get(rk)], rk, k));
+                variants.push((vec![COp::Remove(rk), COp::Get(rk)], rk, k));
+                variants.push((vec![COp::Compute(rk, 1), COp::TryInsert(rk, 800 + k as i64)], rk, k));
+            }
+        }
+        for k in 1..=3u64 {
+            for rk in [35u32, 45, 50, 51, 60] {
+                variants.push((vec![COp::Get(rk), COp::ContainsKey(rk), COp::GetKeyValue(rk)], 1000 + rk, k));
+            }
+        }
+        for (ops0, rk, k) in variants {
+            let hi = rk >= 1000;
+            let rk = rk % 1000;
             let prog = Program {
                 hasher: types::H_IDENTITY,
                 cap: 8,
-                prefill: (0..11).collect(),
-                threads: vec![vec![COp::Get(rk), COp::ContainsKey(rk)], (11..36).map(|x| COp::Insert(x, 100 + x as i64)).collect()],
-                universe: 41,
+                prefill: if hi { hi_prefill.clone() } else { (0..11).collect() },
+                threads: vec![
+                    ops0.clone(),
+                    if hi { (100..126).map(|x| COp::Insert(x, 100 + x as i64)).collect() } else { (11..36).map(|x| COp::Insert(x, 100 + x as i64)).collect() },
+                ],
+                universe: 130,
                 batch: 1,
                 pin: false,
                 linger: 0,
@@ -909,6 +934,65 @@ fn cmd_directed(args: &[String]) {
                     found += 1;
                     let tag = if f.starts_with('C') { f[..3].to_string() } else { "C01".to_string() };
                     println!("FOUND {} directed template=list_walk remove={} k={} || {} || {}", tag, r, k, f.replace('\n', " "), program_text(&prog));
+                }
+            }
+        }
+    }
+    // template 8 (a resize reaches a tree bin whose lock a remover holds; the remover shrinks the
+    // bin back to a list before releasing): thread 1 removes colliding keys one by one and stops
+    // inside the removal that untreeifies; thread 0's insert starts the resize of the 64-bin table
+    // and runs until it waits for that bin's lock; thread 1 finishes; thread 0 finishes
+    if want("untreeify") {
+        for extra in [0u32, 1, 2] {
+            // 9 (+extra) keys in bin 5 of a 64-bin table, 38 - extra others in bins of their own
+            let coll: Vec<u32> = (0..9 + extra).map(|j| 5 + 64 * j).collect();
+            let others: Vec<u32> = (6..6 + 38 - extra).collect();
+            let mut prefill = coll.clone();
+            prefill.extend(others.iter());
+            let prog = Program {
+                hasher: types::H_IDENTITY,
+                cap: 42,
+                prefill,
+                threads: vec![
+                    (44..56).map(|k| COp::Insert(k, 600 + k as i64)).chain(std::iter::once(COp::Get(coll[coll.len() - 1]))).collect(),
+                    coll.iter().take(6).map(|k| COp::Remove(*k)).collect(),
+                    vec![COp::Iter],
+                ],
+                universe: 64 * 12,
+                batch: 1,
+                pin: false,
+                linger: 0,
+            };
+            for x in [0u64, 1, 2, 4] {
+                let script = vec![
+                    (1usize, Cond::EntersFn("untreeify".into())),
+                    (1, Cond::Steps(x)),
+                    (0usize, Cond::Done),
+                    (1, Cond::Done),
+                    (0, Cond::Done),
+                    (2usize, Cond::Done),
+                ];
+                let opts = RunOpts { policy: Policy::Directed(script, 0), step_limit: 200_000, freeze: None };
+                println!("AT directed template=transfer_vs_untreeify extra={} x={} || {}", extra, x, program_text(&prog));
+                let r = with_hasher!(prog.hasher, S, { run_program::<S>(&prog, opts) });
+                runs += 1;
+                let mut fails = r.failures.clone();
+                match r.verdict {
+                    Verdict::Deadlock => fails.push(format!("C11: deadlock: {}", r.statuses)),
+                    Verdict::StepLimit => fails.push("C11: step limit exceeded".into()),
+                    _ => {}
+                }
+                fails.extend(check_quiescent(&prog, &r));
+                fails.extend(check_resize_events(&r));
+                fails.extend(check_history(&prog, &r));
+                fails.extend(check_iterators(&prog, &r));
+                if samples.len() < 10 && x == 0 {
+                    samples.push(format!("transfer vs untreeify: {} resize(s), lock waits {}", r.events.iter().filter(|(_, e)| matches!(e, flurry::verif::Event::TablePublished { .. })).count(), r.lock_waits));
+                }
+                for f in fails.iter().take(1) {
+                    found += 1;
+                    let tag = if f.starts_with('C') { f[..3].to_string() } else { "C10".to_string() };
+                    println!("FOUND {} directed template=transfer_vs_untreeify extra={} x={} || {} || {}", tag, extra, x, f.replace('\n', " "), program_text(&prog));
                 }
             }
         }
@@ -1151,6 +1235,8 @@ fn cmd_c12(args: &[String]) {
         ("compute_if_present (replace) in a list bin", types::H_SAMEBIN, 16, (0..4).collect(), COp::Compute(2, 1)),
         ("compute_if_present (remove) in a list bin", types::H_SAMEBIN, 16, (0..4).collect(), COp::Compute(2, 0)),
         ("clear", types::H_IDENTITY, 16, (0..6).collect(), COp::Clear),
+        ("first insert into a never-allocated map (lazy initialisation)", types::H_IDENTITY, 0, vec![], COp::Insert(1, 49)),
+        ("first reserve on a never-allocated map", types::H_MIX, 0, vec![], COp::Reserve(20)),
         ("insert that triggers a resize", types::H_IDENTITY, 8, (0..11).collect(), COp::Insert(11, 52)),
         ("reserve (resize of a populated table)", types::H_IDENTITY, 8, (0..9).collect(), COp::Reserve(40)),
         ("insert that treeifies a bin", types::H_ZERO, 64, (0..8).collect(), COp::Insert(8, 53)),
